@@ -1,5 +1,5 @@
 # replay of a bounded stand-in violation (C17/C02): re-run native/c17_decomp.py
 import sys
-print('bloch_messiah on partially-degenerate (n=2, 0 unsqueezed modes): reconstruction 2.7e-15, orthogonal-symplectic structure error 2, diagonal error 1.1e-15')
+print('graph_embed on random make_traceless (n=2, mean photon 0.5): U tanh(r) U^T proportional to the embedded matrix: True; mean photon per mode 0.11647')
 print('REPLAY-VIOLATION')
 sys.exit(1)
